@@ -17,6 +17,24 @@ def digest_of(files):
     return h.hexdigest()
 
 
+EMBEDDED_PY = r'''
+import json, sys, jsonschema
+schema = json.load(open(sys.argv[1])); docs = json.load(open(sys.argv[2]))
+v = jsonschema.Draft7Validator(schema)
+errors = []
+def errs(d):
+    try:
+        return [e.message[:300] for e in v.iter_errors(d)]
+    except Exception as e:
+        return ['%s: %s' % (type(e).__name__, str(e)[:300])]
+for d in docs[::max(1, len(docs) // 150)]:
+    errors += errs(d)[:1]
+    if len(errors) > 10: break
+alive = bool(errs({"version": 14, "registry": {"nottypes": []}, "second": None})) and bool(errs({"version": 14, "registry": {"types": [{"id": "0", "type": {"def": {"primitive": "u8"}}}]}}))
+print(json.dumps({"errors": errors, "alive": alive}))
+'''
+
+
 def one_config(label, exe_cmd, tier, violations):
     out = os.path.join(VERIF, 'build', 'c19-' + label)
     shutil.rmtree(out, ignore_errors=True)
@@ -42,6 +60,15 @@ def one_config(label, exe_cmd, tier, violations):
     if v.returncode != 0:
         print(v.stderr[-2000:]); print('MACHINERY-FAILURE: validator failed'); sys.exit(2)
     res = json.loads(v.stdout)
+    # the registry schema embedded in another document type's schema
+    emb = subprocess.run(['python3-vt', '-c', EMBEDDED_PY, os.path.join(out, 'schema_embedded.json'), os.path.join(out, 'whole_embedded.json')], stdout=subprocess.PIPE, stderr=subprocess.PIPE, text=True)
+    if emb.returncode != 0:
+        print(emb.stderr[-2000:]); print('MACHINERY-FAILURE: embedded-schema validator failed'); sys.exit(2)
+    er = json.loads(emb.stdout)
+    if not er['alive']:
+        print('MACHINERY-FAILURE: the embedded schema accepts a known-invalid document'); sys.exit(2)
+    for m in er['errors'][:3]:
+        violations.append({'key': 'schema-embedded-rejects', 'msg': '[features %s] with PortableRegistry as a member of another document type, the generated schema rejects a serialised registry: %s' % (label, m), 'case': {'kind': 'schema-embedded', 'features': label}})
     if not all(res['liveness']):
         print('MACHINERY-FAILURE: the validator accepted a known-invalid control document: %s' % res['liveness']); sys.exit(2)
     entries, docs = (reuse['entries'], reuse['docs']) if (reuse is not None and reuse['clean']) else (0, 0)
